@@ -11,7 +11,13 @@ PROP = dict(
     ],
     rule=("A case is (width, height, alpha, channel width, pixel style+seed) for the save side - pixel styles: random, gradients, all zero, "
           "all max, many 0/max samples, and three with vertical redundancy (rows repeating the row above exactly or except for 1-2 samples, "
-          "flat background with sparse marks, identical rows with marks at the right/left edge) - plus, for `derived`, 1..3 image-producing "
+          "flat background with sparse marks, identical rows with marks at the right/left edge) and few-level noise (every sample one of 2..16 values, the bottom 0..3 rows "
+          "repeating the top rows: matches at every distance the image allows); a sixth of the random `roundtrip` cases and an enumerated block (every 8-bit width x alpha "
+          "with a height <= 64 for which it holds, 2^8..2^14) have a raster size width*height*channels at or less than `height` bytes under a power of two, so that the PNG scanline "
+          "data (one filter byte per row more) lies just above it; `idatlen` cases are (width, height, alpha, seed, k = 12..15, j): a noise image whose first z samples are zero, z found "
+          "by a deterministic search with the reference compressor (zlib compress2 level 9 on filter-byte-0 scanlines) such that the compressed length is exactly the j-th multiple "
+          "of 2^k (4/8/16/32 KiB - the lengths at which chunking and buffering of the COMPRESSED data have their edges; 64x64 / 63x64 with every reachable multiple enumerated, "
+          "other sizes up to 64, a tenth up to 128/200, at random; a search miss still gives a valid image and is counted in the class `idatlen:search-missed`) - plus, for `derived`, 1..3 image-producing "
           "operations applied before saving (copy/move assignment into a live image of another size, alpha flag and channel width or into a "
           "default-constructed one, copy/move construction, set_channel_width, set_has_alpha, reverse_horizontal/vertical; every operation "
           "x (alpha, channel width) x (alpha, channel width) and every ordered pair of operations enumerated), for `large` a sampled image beyond the "
@@ -28,6 +34,9 @@ PROP = dict(
           "(grayscale, reordered/padded headers, other maxval, V4/V5/56-byte BMP headers, permuted masks, top-down rows, data-offset gap). "
           "Distinct = distinct case encodings (hash); fuzz inputs are distinct by (variant, sub-variant, size, cut)."),
     assumptions=[
+        "the PNG's zlib stream is valid when: CM = 8, CINFO <= 7, FCHECK correct, no preset dictionary, every back-reference distance within the window the header declares "
+        "(RFC 1950 2.2; a smaller declared window is accepted as long as the stream respects it), Adler-32 correct, nothing after the stream, exactly height*(1+width*channels) bytes; "
+        "IDAT data may be split over any number of consecutive IDAT chunks (also empty ones)",
         "files are presented through real file descriptors (memfd) so that fseek past the end behaves as on disk",
         "samples wider than 8 bits are accepted in either byte order (phosg reads host order, Netpbm defines big-endian); "
         "format-defined pixels are asserted exactly for maxval <= 255 only",
@@ -43,7 +52,8 @@ PROP = dict(
     ],
     min_evaluations_quick=20000,
     technique=("property-based testing with differential oracles: independent PNG/BMP/PPM decoders and encoders written from the "
-               "format specifications (own CRC-32, zlib only to inflate), exhaustive enumeration of container sub-variants and of "
+               "format specifications (own CRC-32, zlib only to inflate - with exactly the window the stream's header declares, so that a back-reference beyond the declared "
+               "window is an error as it is for libpng - and as the reference compressor steering the search for images with a given compressed length), exhaustive enumeration of container sub-variants and of "
                "file prefixes, rapidcheck random images, coverage-guided libFuzzer over (variant, size, cut point)"),
     level_text=("Exploration: every case runs the real Image::save/Image::load of the working tree (ASan+UBSan+LSan build) against "
                 "codecs written from the specifications; all widths 1..64, all listed container sub-variants and all prefixes of the "
